@@ -555,7 +555,8 @@ fn run_case(cfg: &Config, text: &str, rng: &mut Rng, nvals: usize) -> Outcome {
             let r_old = catch(|| { old_vm.run(&old_stmts, ctx); });
             if r_old.is_err() {
                 // e.g. a run-time division by zero in the source itself
-                if ival < 2 { run_parts.push(format!("({}%nat, [{}], RFail, RSkip)", vm_difficulty, init_coq)); }
+                // (AstVm also panics on things outside the model, e.g. reading a local whose declaration a goto skipped:
+                //  such runs are not compared)
                 continue;
             }
             let r_new = catch(|| { new_vm.run(&new_stmts, ctx); });
